@@ -44,6 +44,10 @@ def strategy_case(draw: Any) -> Dict[str, Any]:
     case = draw(filegen.file_case(countries=COUNTRIES, hist=HIST, flavours=("mixed",) * 7 + ("dust_on_big_lot",)))
     if case["lang"] is None and case["country"] != "jp" and draw(st.booleans()):
         case["lang"] = cli.COUNTRY_LANGS[case["country"]][0]
+    if case.get("to") and draw(st.integers(0, 3)) == 0:
+        boundary = draw(filegen.boundary_to_date(case))
+        if boundary and (not case.get("from") or case["from"] <= boundary):
+            case["to"] = boundary
     return case
 
 
